@@ -174,6 +174,12 @@ pub fn camera_scene(max_dim: u32, max_tris: usize, color_only_ok: bool) -> Boxed
 }
 
 pub fn check(sc: &Scene, obs: &mut Obs) -> Check {
+    // DESIGN D-d: triangles through the clip-space apex are outside the asserted domain
+    // (the generator already nudges them away; this keeps the predicate itself total)
+    if sc.door != Door::Camera && (0..sc.tris.len()).any(|t| apex_closeness(&clip64(sc, t)) < 0.05) {
+        obs.excluded("triangle through the clip-space apex (D-d)");
+        return Ok(());
+    }
     let mut s = Session::new(sc);
     let all: Vec<usize> = (0..sc.tris.len()).collect();
     if let Err(p) = s.draw(&all) {
